@@ -3,7 +3,7 @@ use super::asmrun::*;
 use crate::util::*;
 
 pub fn run(ctx: &Ctx) -> Report {
-    let mut rep = Report::new("every error produced by assembling the C02 fault families (single faults at every placement on every base program, fault pairs, fence-post, offset-limit and block-layout programs) and by every failing link of the C20 link family (all ordered pairs and triples): span.first(), span.iter() and Error::span() are exercised under catch_unwind; for assembling errors every span must lie in the source on char boundaries and, for label errors, cover a spelling of an offending label. non-trivial = case that produced an error");
+    let mut rep = Report::new("every error produced by assembling the C02 fault families (single faults at every placement on every base program, fault pairs, fence-post, offset-limit and block-layout programs, programs whose labels contain non-ASCII letters) and by every failing link of the C20 link family (all ordered pairs and triples, over the family assembled with debug symbols and over its members that keep a symbol table without them): span.first(), span.iter() and Error::span() are exercised under catch_unwind; for assembling errors every span must lie in the source on char boundaries and, for label errors, cover a spelling of an offending label. non-trivial = case that produced an error");
     let plain = vec![(0u64, DEFAULT_SECONDARY)];
     let two = vec![(0u64, DEFAULT_SECONDARY), (3887u64, 37u64)];
     let plans = vec![
@@ -13,6 +13,7 @@ pub fn run(ctx: &Ctx) -> Report {
         Plan { fam: "LIM", styles: two.clone(), debug: vec![true], stride: 1 },
         Plan { fam: "BLK", styles: two.clone(), debug: vec![true], stride: 1 },
         Plan { fam: "LAB", styles: plain.clone(), debug: vec![true], stride: 1 },
+        Plan { fam: "UNI", styles: two.clone(), debug: vec![false, true], stride: 1 },
     ];
     run_plans(ctx, &mut rep, "C26", &plans, &|i| i.err_kind.is_some());
     super::c20::link_error_spans(ctx, &mut rep);
